@@ -18,6 +18,7 @@ import (
 	"github.com/wrgl/wrgl/pkg/pbar"
 	"github.com/wrgl/wrgl/pkg/slice"
 	"github.com/wrgl/wrgl/pkg/testutils"
+	"github.com/wrgl/wrgl/pkg/verifhook"
 )
 
 func getRunSize() (uint64, error) {
@@ -368,6 +369,7 @@ func (s *Sorter) SortedBlocks(ctx context.Context, removedCols map[int]struct{},
 					RowsCount: len(blk),
 				}
 				copy(b.PK, blkPK)
+				verifhook.Yield("sorter.block")
 				select {
 				case <-ctx.Done():
 					return
